@@ -1,7 +1,7 @@
 """C16 — abandoned requests have all-or-nothing effect (cancel-atomicity of client-cancellable roots)."""
 from engine import rule, CheckBroken
 from events import EventModel, Walker
-from common import short_ty
+from common import short_ty, await_class
 
 
 def cancellable_roots(prog):
@@ -85,3 +85,129 @@ def r16_2(prog, out):
                 out.violation(key, di.loc(vh.responder_bb), "the result of replying to the caller is used (%d use(s)): a vanished caller can make the actor fail" % len(uses))
             else:
                 out.holds(key, di.loc(vh.responder_bb), "reply result is discarded (`let _ = responder.send(..)`)")
+
+
+@rule("C16", "R16.4", "no drop guard takes back part of a request while a detached task completes the rest", floor=1)
+def r16_4(prog, out):
+    """Cancellation runs destructors.  A guard value whose `Drop` undoes something in shared state (releases the name it
+    registered, unregisters from push) and that is alive across an `.await` of a client-cancellable future turns every such
+    await into a point at which the request is *partly* taken back -- harmless when everything else the request did is undone
+    too, a half-created resource when a task the request spawned (which cancellation does not reach) carries on with the
+    other half.  Instances: every (guard local, await under it); HOLDS when nothing spawned while the guard is alive changes
+    anchored state, VIOLATION otherwise.  The reference tree has no such guard (instance `drop-guards`)."""
+    import libmodel as L
+    A = prog.anchors
+    shared = [A.cell("SubState", "subscriptions"), A.cell("TopicState", "topics"), A.cell("TopicActor", "subscriptions"),
+              A.cell("PushRegistryState", "push_subscriptions")]
+    guards = {}
+    for b in prog.facts.lib_bodies():
+        if b.impl_trait in ("std::ops::Drop", "core::ops::Drop") and b.id.endswith("::drop") and b.impl_self:
+            effs = [e for e in prog.effects(b.id) if e.kind in L.MUTATING_KINDS and any(e.touches(c) for c in shared)]
+            if effs:
+                guards[b.impl_self.split("<")[0]] = (b.id, effs)
+    out.holds("drop-guards", "", "%d type(s) of the crate undo shared state in Drop" % len(guards), nontrivial=False)
+    if not guards:
+        return
+    roots = set()
+    for label, rid, kind in cancellable_roots(prog):
+        roots |= set(prog.cone(rid, follow=("call", "closure", "poll")))
+    for bid in sorted(roots):
+        bi = prog.info(bid)
+        if bi is None or not bi.body.coroutine:
+            continue
+        body = bi.body
+        for li in range(len(body.locals)):
+            ty = (body.local_ty(li) or "").split("<")[0]
+            if ty not in guards:
+                continue
+            defs = {d[0] for d in bi.defs.get(li, [])}
+            ends = set()
+            for blk in body.blocks:
+                if blk.cleanup:
+                    continue
+                for st in blk.stmts:
+                    if st.k == "assign" and any(o.kind == "move" and o.place is not None and o.place.is_local() and o.place.local == li for o in st.rv.ops):
+                        ends.add(blk.idx)
+                t = blk.term
+                if t.k == "drop" and t.place is not None and t.place.is_local() and t.place.local == li:
+                    ends.add(blk.idx)
+                if t.k == "call" and any(o.kind == "move" and o.place is not None and o.place.is_local() and o.place.local == li for o in t.args):
+                    ends.add(blk.idx)
+            live = set()
+            for d in defs:
+                live |= set(bi.cfg.reachable_from(d, avoid=ends))
+            under = [a for a in bi.awaits if a.poll_bb in live]
+            if not under:
+                continue
+            gid, geffs = guards[ty]
+            key = "guard:%s:%s" % (prog.short(bid), body.local_name(li) or "_%d" % li)
+            carried = []
+            for sp in bi.spawns:
+                if sp.bb in live and sp.task is not None:
+                    for c in prog.cone(sp.task, follow=("call", "closure", "poll")):
+                        ci = prog.info(c)
+                        if any(e.kind in L.MUTATING_KINDS and any(e.touches(x) for x in shared) for e in prog.effects(c)) or \
+                                (ci is not None and any(await_class(prog, ci, a) == "mpsc_send" for a in ci.awaits)):
+                            carried.append((sp.bb, c))       # changes shared state itself, or asks an actor to
+            if carried:
+                sbb, c = carried[0]
+                out.violation(key, bi.loc(under[0].poll_bb), "a %s is alive across this await: when the client goes away its Drop (%s) takes back what the request "
+                              "registered, while the task spawned at %s (%s) carries on with the rest -- the resource ends up half-created" % (
+                                  short_ty(ty), prog.loc(gid), bi.loc(sbb), prog.short(c)),
+                              ["guard created at %s" % ", ".join(bi.loc(d) for d in sorted(defs)), "await at %s" % bi.loc(under[0].poll_bb), "Drop effects: %s" % sorted({e.kind for e in geffs})])
+            else:
+                out.holds(key, bi.loc(under[0].poll_bb), "the guard undoes shared state on cancellation and nothing spawned under it changes shared state")
+
+
+@rule("C16", "R16.5", "an actor that drops requests of vanished callers unhandled never does so to a later step of a multi-step operation", floor=1)
+def r16_5(prog, out):
+    """`if responder.is_closed() { return }` in an actor makes a request whose caller has gone away count as never sent.  For a
+    single-step request that is `not at all`.  For a request that is a later step of an operation whose earlier steps have
+    already taken effect (DeleteSubscription: detach from the topic, *then* `Delete` to the actor) it is `half`, unless the reply
+    channel of that request lives inside the task that cannot be cancelled (then it is never closed early).  Instances: every
+    request variant whose responder the actor tests, per place that builds it after an earlier step; reference tree: the actors
+    test no responder (instance `skips-abandoned`)."""
+    tested = {}     # (actor type, variant) -> site
+    for actor in prog.actors:
+        for bid in prog.cone(actor.loop, follow=("call", "closure", "poll")):
+            bi = prog.info(bid)
+            if bi is None:
+                continue
+            for bb, t in bi.calls(lambda c: c.path.startswith("tokio::sync::oneshot::Sender") and c.path.endswith("::is_closed")):
+                o = bi.trace(t.args[0])
+                vs = [p[1] for p in (o.path or ()) if isinstance(p, tuple) and p and p[0] == "v"]
+                for v in (vs or list(actor.variants)):
+                    if v in actor.variants:
+                        tested[(actor.request, v)] = bi.loc(bb)
+    out.holds("skips-abandoned", "", "%d request variant(s) are dropped unhandled when their responder is closed" % len(tested), nontrivial=False)
+    if not tested:
+        return
+    # tasks that cancellation does not reach
+    task_of = {}
+    for b in prog.facts.lib_bodies():
+        bi = prog.info(b.id)
+        for sp in bi.spawns:
+            if sp.task is not None:
+                for c in prog.cone(sp.task, follow=("call", "closure", "poll")):
+                    task_of.setdefault(c, (b.id, sp.bb))
+    for (req, v), site in sorted(tested.items()):
+        for (cb, cbb, _i, rv) in prog.constructions(req, v):
+            ci = prog.info(cb)
+            if ci is None or cb not in task_of:
+                continue            # built in the caller's own future: a single step, dropped as a whole with it
+            earlier = [a for a in ci.awaits if await_class(prog, ci, a) in ("mpsc_send", "local", "oneshot_recv") and ci.cfg.can_reach(a.poll_bb, cbb) and not ci.cfg.can_reach(cbb, a.poll_bb)]
+            if not earlier:
+                continue
+            names = rv.j.get("fields") or []
+            ridx = [i for i, n in enumerate(names) if "respond" in n or "reply" in n or "tx" == n]
+            if not ridx:
+                continue
+            o = ci.trace(rv.ops[ridx[0]])
+            key = "later-step:%s::%s@%s" % (short_ty(req), v, prog.short(cb))
+            inside = o.kind == "call" and ci.call_at(o.data).callee is not None and ci.call_at(o.data).callee.path.startswith("tokio::sync::oneshot::channel")
+            if inside:
+                out.holds(key, ci.loc(cbb), "the reply channel of this later step is created and awaited inside the task, which no caller can cancel")
+            else:
+                out.violation(key, ci.loc(cbb), "%s::%s is sent after an earlier step of the operation has taken effect, its reply channel belongs to the caller's "
+                              "cancellable future (%s), and the actor drops requests whose responder is closed (%s): a caller that goes away leaves the "
+                              "operation half done" % (short_ty(req), v, o.kind, site))
